@@ -1,6 +1,12 @@
 //! C05 — garbage collection is transparent and never frees a reachable value (`gcsim`)
+use std::sync::atomic::{AtomicBool, Ordering};
+
+use futures::task::Poll;
 use gluon::{
-    vm::api::{Hole, OpaqueValue},
+    vm::{
+        api::{Hole, OpaqueValue},
+        thread::{HookFlags, ThreadInternal},
+    },
     RootedThread, ThreadExt,
 };
 use gluon_vm::thread::RootedValue;
@@ -16,6 +22,8 @@ use crate::{
 };
 
 pub struct C05;
+
+static HOOK_YIELDED: AtomicBool = AtomicBool::new(false);
 
 type Val = RootedValue<RootedThread>;
 
@@ -73,13 +81,13 @@ impl Engine for C05 {
             real: vec!["parser, typechecker, optimiser, bytecode compiler, VM interpreter, Gc (mark/sweep, generations), RootedValue, std.reference/std.lazy primitives, deep clone into the global heap, salsa query database"],
             stubbed: vec!["collection trigger: decided by the tape in addition to the real threshold (guarded hook in Gc::check_collect)", "freed blocks are poisoned and quarantined instead of returned to the allocator", "host program = the simulator's operation list"],
             not_exercised: vec!["std.io/fs/http/process/env/random", "tokio executor", "REPL", "C API"],
-            fault_kinds: vec!["gc (forced collection at a check_collect)", "host_collect (explicit Thread::collect between operations)"],
+            fault_kinds: vec!["gc (forced collection at a check_collect)", "host_collect (explicit Thread::collect between operations)", "collect_while_suspended (a thread of the tree collects while an evaluation is suspended mid-frame at a debug-hook yield)", "hook (suspension point)"],
             assumptions: vec![
                 "interleavings are explored at check_collect granularity (every allocation through alloc_and_collect); allocation sites that bypass check_collect cannot trigger a collection in production either",
                 "the reference execution uses the natural threshold only; both executions are real schedules of the real collector",
             ],
             shrink: vec!["/ops"],
-            quick: (12000, 150),
+            quick: (8000, 150),
             thorough: (600000, 1100),
         }
     }
@@ -138,6 +146,7 @@ impl Engine for C05 {
         }
 
         let nops = 2 + rng.below(10);
+        let suspend_run = rng.chance(1, 3);
         let mut ops = Vec::new();
         let mut handles = 0usize;
         for _ in 0..nops {
@@ -158,7 +167,7 @@ impl Engine for C05 {
                 if keep {
                     handles += 1;
                 }
-                ops.push(json!({ "op": "eval", "t": t, "prog": prog, "keep": keep }));
+                ops.push(json!({ "op": "eval", "t": t, "prog": prog, "keep": keep, "suspend": suspend_run && rng.chance(1, 2) }));
             } else if roll < 55 {
                 ops.push(json!({ "op": "collect", "t": t }));
             } else if roll < 62 && handles > 0 {
@@ -211,6 +220,7 @@ impl Engine for C05 {
             "prelude": prelude,
             "gc": policy.to_json(),
             "collect_limit": *rng.pick(&[0u64, 0, 100, 1000, 100000]),
+            "hook_rate": if suspend_run { *rng.pick(&[16u32, 64, 256]) } else { 0 },
             "threads": parents,
             "cells": cells,
             "funs": funs,
@@ -307,6 +317,29 @@ fn execute(w: &Value, phase: &str) -> Result<Exec, Violation> {
                 .new_thread()
                 .map_err(|e| Violation::new("harness", format!("new_thread: {}", e)))?;
             threads.push(Some(child));
+        }
+    }
+    let hook_rate = w["hook_rate"].as_u64().unwrap_or(0) as u32;
+    if hook_rate > 0 {
+        for t in threads.iter().flatten() {
+            let mut context = t.context();
+            context.set_hook(Some(Box::new(move |_, _| {
+                let y = run::try_with(|s| {
+                    if s.context.ends_with("suspended") {
+                        s.tape.flip("hook", hook_rate, 1024)
+                    } else {
+                        false
+                    }
+                })
+                .unwrap_or(false);
+                if y {
+                    HOOK_YIELDED.store(true, Ordering::SeqCst);
+                    Poll::Pending
+                } else {
+                    Poll::Ready(Ok(()))
+                }
+            })));
+            context.set_hook_mask(HookFlags::CALL_FLAG);
         }
     }
     let cells: Vec<(String, String, String)> = w["cells"]
@@ -410,7 +443,34 @@ fn execute(w: &Value, phase: &str) -> Result<Exec, Violation> {
         let entry = match kind {
             "eval" => {
                 let src = op["prog"].as_str().unwrap_or("0");
-                match thread.run_expr::<OpaqueValue<RootedThread, Hole>>(&format!("e{}", i), src) {
+                let name = format!("e{}", i);
+                let result = if op["suspend"].as_bool().unwrap_or(false) && phase == "forced" {
+                    // the evaluation is suspended at tape-chosen CALL events (debug hook returns
+                    // Pending); while it is suspended in the middle of a frame the host collects a
+                    // tape-chosen thread of the tree (a parent collecting marks this thread's
+                    // roots too)
+                    run::set_context(format!("{} op {} `eval` suspended", phase, i));
+                    let fut = thread.run_expr_async::<OpaqueValue<RootedThread, Hole>>(&name, src);
+                    let out = crate::exec::drive_with(fut, 200_000, |_| {
+                        if !HOOK_YIELDED.swap(false, Ordering::SeqCst) {
+                            return crate::exec::Next::Default;
+                        }
+                        let live: Vec<&RootedThread> = threads.iter().flatten().collect();
+                        let c = run::choose("suspended_collect", live.len() as u32 + 1) as usize;
+                        if c < live.len() {
+                            run::count("collect_while_suspended", 1);
+                            live[c].collect();
+                        }
+                        crate::exec::Next::Poll
+                    });
+                    match out {
+                        crate::exec::Outcome::Ready(r, _) => r,
+                        _ => return Err(Violation::new("hang", format!("{} op {}: suspended evaluation never completed", phase, i))),
+                    }
+                } else {
+                    thread.run_expr::<OpaqueValue<RootedThread, Hole>>(&name, src)
+                };
+                match result {
                     Ok((v, ty)) => {
                         let s = format!("OK {} : {}", render::render(v.get_variant()), ty);
                         if op["keep"].as_bool().unwrap_or(false) {
@@ -611,6 +671,11 @@ fn execute(w: &Value, phase: &str) -> Result<Exec, Violation> {
                     i, allocated, baseline[i], dropped, thread_block, t.verif_stack_len(), t.verif_root_counts(), phase
                 ),
             ));
+        }
+    }
+    if hook_rate > 0 {
+        for t in live.iter().flatten() {
+            t.context().set_hook(None);
         }
     }
     drop(live);
